@@ -165,19 +165,25 @@ def run(data):
     stale = [("unit", lambda: Meter ** 7 / Second ** 5, lambda o: Unit.derive(o, "vf stale unit", "vfsu"), lambda: Unit.named("vf stale unit")),
              ("unit", lambda: Prefix(10, 3) * Meter ** 5 / Second ** 7, lambda o: o.alias(name="vf stale alias", symbol="vfsa"), lambda: Unit.named("vf stale alias")),
              ("dimension", lambda: Length ** 7 / Time ** 5, lambda o: Dimension.derive(o, "vf stale dimension", "VFSD"), lambda: Dimension._by_name["vf stale dimension"]),
-             ("prefix", lambda: Prefix(10, 37), lambda o: Prefix(10, 37, name="vfstale", symbol="vfsp"), lambda: Prefix._by_name["vfstale"])]
+             ("prefix", lambda: Prefix(10, 37), lambda o: Prefix(10, 37, name="vfstale", symbol="vfsp"), lambda: Prefix._by_name["vfstale"]),
+             # a symbol declared without a name (both signatures allow it; Celsius.alias(symbol="degC") is the shipped example)
+             ("prefix", lambda: Prefix(7, 2), lambda o: Prefix(7, 2, symbol="vfSq"), lambda: Prefix._by_symbol["vfSq"]),
+             ("unit", lambda: Meter ** 9 / Second ** 4, lambda o: o.alias(symbol="vfso"), lambda: Unit._by_symbol["vfso"]),
+             ("unit", lambda: Prefix(10, 3) * Meter ** 4 / Second ** 9, lambda o: o.alias(symbol="vfsk"), lambda: Unit._by_symbol["vfsk"])]
     for kind, make, name_it, lookup in stale:
         try:
             o = make()
-            blobs = [("pickle", pickle.dumps(o)), ("pickle-2", pickle.dumps(o, protocol=2)), ("json", json.dumps(o, cls=MeasuredJSONEncoder))]
+            blobs = [("pickle", pickle.dumps(o)), ("pickle-2", pickle.dumps(o, protocol=2)), ("json", json.dumps(o, cls=MeasuredJSONEncoder)),
+                     ("pickle-in-quantity", pickle.dumps(3 * o) if kind == "unit" else pickle.dumps(o))]
             name_it(o)
-            want = (getattr(o, "name", None), getattr(o, "symbol", None))
+            want = (getattr(o, "name", None), getattr(o, "symbol", None) or (o.symbols[0] if getattr(o, "symbols", None) else None))
             for codec, blob in blobs:
                 counts[f"stale:{codec}"] = counts.get(f"stale:{codec}", 0) + 1
                 case_ids.append(f"stale:{kind}:{codec}:{want[0]}")
                 r = pickle.loads(blob) if codec.startswith("pickle") else json.loads(blob, cls=MeasuredJSONDecoder)
-                got = (getattr(o, "name", None), getattr(o, "symbol", None))
-                if r is not o or got != want or lookup() is not o or want[0] is None:
+                if codec == "pickle-in-quantity" and kind == "unit": r = r.unit
+                got = (getattr(o, "name", None), getattr(o, "symbol", None) or (o.symbols[0] if getattr(o, "symbols", None) else None))
+                if r is not o or got != want or lookup() is not o or (want[0] is None and want[1] is None):
                     fails.append({"codec": codec, "kind": kind, "object": describe(o), "got": describe(r), "unit_text_ok": True,
                                   "what": f"a document taken before the {kind} was named {want} was read back afterwards: the live object now reports {got}"})
         except Exception as ex:  # noqa
